@@ -25,7 +25,6 @@ func defaultAvoid() avoid {
 	return avoid{}
 }
 
-
 const ruleSeq = "non-trivial = at least one committed transaction and a non-empty final state; distinct = distinct final model state hash"
 
 func init() {
@@ -49,9 +48,19 @@ func init() {
 			p := seqProfile{minSteps: 4, maxSteps: 24, wTxn: 20, wCreateIndex: 1,
 				wInsert: 8, wAt: 8, wRange: 2, wDelete: 4, wDeleteAll: 1, wKey: 10,
 				pAbort: 0.35, pFailInsert: 0.2, pMerge: 0.3, maxCols: 6, multiBlock: 0.4, pKeyCol: 0.3, indexes: true}
+			if run%2 == 1 {
+				return genConc("C02", seed, run, concProfile{minWriters: 1, maxWriters: 3, minReaders: 1, maxReaders: 2, maxTxns: 3, maxOps: 4,
+					wUpdate: 6, wMerge: 3, wInsert: 4, wDeleteOwn: 3, wRangeRead: 3, wRangeWrite: 1, wPointRead: 4, wKey: 8,
+					pAbort: 0.3, pFailInsert: 0.15, multiBlock: 0.4, maxCols: 4, pKeyCol: 0.25, indexes: true, stableRows: [2]int{2, 6}}, knownAvoid("C02", seed, run))
+			}
 			return genSeq("C02", seed, run, p, knownAvoid("C02", seed, run))
 		},
-		Exec: func(cs *Case) *World { return runSeq(cs, seqOracles{dump: true, twin: true, stream: true}) },
+		Exec: func(cs *Case) *World {
+			if cs.World == "conc" {
+				return runConc(cs, concOracles{stream: true, phantom: true})
+			}
+			return runSeq(cs, seqOracles{dump: true, twin: true, stream: true})
+		},
 		Real: realComponents, Stub: seqStub,
 	})
 	register(&PropDef{
@@ -77,6 +86,67 @@ func init() {
 		},
 		Exec: func(cs *Case) *World { return runSeq(cs, seqOracles{dump: true}) },
 		Real: realComponents, Stub: seqStub,
+	})
+	concStub := []string{"thread scheduler (real goroutines released one at a time at repo hooks; enabledness from the real latch words)", "link: FIFO with seeded delay in front of the real commit.Channel", "disk: in-memory SimFile/SimReader under the real commit.Log and Snapshot/Restore"}
+	register(&PropDef{
+		ID: "C06", Quick: 4000, Thorough: 120000, Level: "exploration",
+		Rule: "2-5 concurrent writer threads (all column kinds, inserts with offset reuse, deletes, merges, multi-block transactions) on a primary whose every commit is tapped inside the block latch and forwarded to a real commit.Channel (consumed by an applier thread after a seeded link delay and replayed on REPLICA-C) and to a real commit.Log on a SimFile (replayed on REPLICA-L through a chunking reader); schedule drawn per run from uniform/sticky/PCT/round-robin/phase-biased strategies over all hook points; at quiescence Dump(primary)==Dump(REPLICA-C)==Dump(REPLICA-L)==model; non-trivial = at least one commit and at least one scheduling decision with more than one enabled thread; distinct = distinct (interleaving signature, end state)",
+		Gen: func(seed uint64, run int, tier string) *Case {
+			return genConc("C06", seed, run, concProfile{minWriters: 2, maxWriters: 5, maxTxns: 3, maxOps: 4, replicas: true,
+				wUpdate: 6, wMerge: 5, wInsert: 4, wDeleteOwn: 3, wRangeWrite: 1, wKey: 8,
+				pAbort: 0.1, multiBlock: 0.5, maxCols: 8, pKeyCol: 0.2, indexes: true, stableRows: [2]int{2, 8}, linkDelay: 40}, knownAvoid("C06", seed, run))
+		},
+		Exec: func(cs *Case) *World { return runConc(cs, concOracles{replicas: true}) },
+		Real: realComponents, Stub: concStub,
+	})
+	register(&PropDef{
+		ID: "C09", Quick: 5000, Thorough: 150000, Level: "exploration",
+		Rule: "2-5 threads merging deltas into overlapping stable rows of one or several blocks (additive merges of every numeric type incl. wrap-around, order-sensitive v*3+d merges, string concat, record merge), mixed with overwrites, readers, a snapshotter and indexes on the merged columns; the model folds the deltas in block-latch order; oracle: every value read under a read latch and the final dump equal the fold, and the absolute values carried by the emitted commits equal the model's running values; non-trivial = at least one commit and one real scheduling choice; distinct = distinct (interleaving signature, end state)",
+		Gen: func(seed uint64, run int, tier string) *Case {
+			return genConc("C09", seed, run, concProfile{minWriters: 2, maxWriters: 5, minReaders: 0, maxReaders: 1, maxTxns: 3, maxOps: 4, snapshots: 0,
+				wUpdate: 2, wMerge: 12, wRangeRead: 1, wRangeWrite: 2, wPointRead: 1,
+				pAbort: 0.1, multiBlock: 0.5, maxCols: 6, indexes: true, stableRows: [2]int{1, 4}, mergeKinds: true}, knownAvoid("C09", seed, run))
+		},
+		Exec: func(cs *Case) *World { return runConc(cs, concOracles{stream: true}) },
+		Real: realComponents, Stub: concStub,
+	})
+	register(&PropDef{
+		ID: "C10", Quick: 5000, Thorough: 150000, Level: "exploration",
+		Rule: "writers updating 1-4 columns of the same stable rows (also multi-block) park at the three in-commit hooks while holding the write latch; readers use QueryAt, Range and yield between two column reads inside one callback while holding the read latch; oracle: every value read inside a callback equals the model's committed state, which changes atomically per (transaction, block) under the write latch, so any mixture of two committed states of a row is a mismatch; non-trivial = at least one commit and one real scheduling choice; distinct = distinct (interleaving signature, end state)",
+		Gen: func(seed uint64, run int, tier string) *Case {
+			return genConc("C10", seed, run, concProfile{minWriters: 1, maxWriters: 3, minReaders: 1, maxReaders: 3, maxTxns: 3, maxOps: 3,
+				wUpdate: 10, wMerge: 3, wInsert: 1, wDeleteOwn: 1, wRangeRead: 5, wRangeWrite: 2, wPointRead: 6,
+				pAbort: 0.05, multiBlock: 0.4, maxCols: 5, stableRows: [2]int{1, 4}}, knownAvoid("C10", seed, run))
+		},
+		Exec: func(cs *Case) *World { return runConc(cs, concOracles{}) },
+		Real: realComponents, Stub: concStub,
+	})
+	register(&PropDef{
+		ID: "C15", Quick: 5000, Thorough: 150000, Level: "exploration",
+		Rule: "same world as C06 without replicas; oracle on the recording logger: exactly one commit per (committed transaction, block it changed), nothing for rolled-back, read-only or failing-insert-only transactions, ids distinct and non-zero, per block strictly increasing in the order the commits were applied (= reached the logger), decoded operations equal the issued ones; non-trivial = at least one commit and one real scheduling choice; distinct = distinct (interleaving signature, end state)",
+		Gen: func(seed uint64, run int, tier string) *Case {
+			return genConc("C15", seed, run, concProfile{minWriters: 2, maxWriters: 4, minReaders: 0, maxReaders: 1, maxTxns: 3, maxOps: 4,
+				wUpdate: 8, wMerge: 4, wInsert: 4, wDeleteOwn: 3, wRangeRead: 2, wRangeWrite: 1, wPointRead: 2, wKey: 6,
+				pAbort: 0.2, pFailInsert: 0.15, multiBlock: 0.5, maxCols: 5, pKeyCol: 0.15, stableRows: [2]int{1, 5}}, knownAvoid("C15", seed, run))
+		},
+		Exec: func(cs *Case) *World { return runConc(cs, concOracles{stream: true}) },
+		Real: realComponents, Stub: concStub,
+	})
+	register(&PropDef{
+		ID: "C08", Quick: 5000, Thorough: 150000, Level: "exploration",
+		Rule: "a snapshotter thread takes 1-2 snapshots to a SimFile while 2-4 writers commit updates, merges, deletes and inserts (single- and multi-block); yield points in Snapshot (recorder opened, before each block, state written, recorder closed) and in the commit path; each snapshot is restored and every block must equal the model after some prefix j of the commits applied to that block in latch order with acknowledged-before-call <= j <= applied-at-return; Snapshot must not fail or panic; non-trivial = at least one commit and one real scheduling choice; distinct = distinct (interleaving signature, end state)",
+		Gen: func(seed uint64, run int, tier string) *Case {
+			cs := genConc("C08", seed, run, concProfile{minWriters: 2, maxWriters: 4, maxTxns: 3, maxOps: 3, snapshots: 1,
+				wUpdate: 8, wMerge: 4, wInsert: 3, wDeleteOwn: 2, wRangeWrite: 1,
+				pAbort: 0.05, multiBlock: 0.5, maxCols: 4, stableRows: [2]int{1, 4}}, knownAvoid("C08", seed, run))
+			// the strategy mix is weighted towards the phase-biased variants
+			if NewRng(seed, uint64(run), 9).Chance(0.5) {
+				cs.Strategy = "phase"
+			}
+			return cs
+		},
+		Exec: func(cs *Case) *World { return runConc(cs, concOracles{snapshots: true}) },
+		Real: append(append([]string{}, realComponents...), "commit.OpenTemp recorder file in a private TMPDIR"), Stub: concStub,
 	})
 	register(&PropDef{
 		ID: "C07", Quick: 4000, Thorough: 120000, Level: "exploration",
